@@ -22,11 +22,11 @@ UNITS = [{}] + [{'molar enthalpy': h, 'molar entropy': s,
                 for h in ('kcal/mol', 'kJ/mol', 'J/mol')
                 for s in ('cal/(mol K)', 'J/(mol K)', 'kJ/(mol K)')
                 for t in ('K', 'kK')]
-HS = [None, 0.0, -17.224273321869813, 1.5e-5, 2.5e4]
+HS = [None, 0.0, -17.224273321869813, 1.5e-5, 2.5e4, 5e-05, -1e+16]
 SS = [None, 0.0, 15.302888746272764]
 TREFS = [298.15, 298.0, 300.0]
 GROUP = 'C(C)(H)3'
-BOUND = {t: 'table sizes %s (with and without a zero entry) x 5 H x 3 S x 2 '
+BOUND = {t: 'table sizes %s (with and without a zero entry) x 7 H x 3 S x 2 '
             'ranges x 3 T_ref x {built directly, loaded from a file, dict in descending order, point merged in later} x 19 unit '
             'choices x {tagged load, embedded in a library file}; every group of '
             '9 shipped libraries x 19 unit choices'
@@ -112,12 +112,19 @@ def load_lib_text(text):
 def build_loaded(c):
     """The same correlation obtained by loading a dimensional file, so that
     numpy scalars occur as they do in practice."""
+    from decimal import Decimal
     R0 = 8.314472
+
+    class P(float):      # positional repr: the units parser reads no exponents
+        def __repr__(self):
+            return format(Decimal(float.__repr__(self)), 'f')
+    c = dict(c, H=None if c['H'] is None else P(c['H']),
+             S=None if c['S'] is None else P(c['S']))
     lines = ['T_ref: %r K' % c['tref']]
     if c['H'] is not None:
-        lines.append('H_ref: %r J/mol' % (c['H'] * R0 * c['tref']))
+        lines.append('H_ref: %r J/mol' % P(c['H'] * R0 * c['tref']))
     if c['S'] is not None:
-        lines.append('S_ref: %r J/(mol K)' % (c['S'] * R0))
+        lines.append('S_ref: %r J/(mol K)' % P(c['S'] * R0))
     if c['tab']:
         lines.append('Cp_data:')
         for T in sorted(c['tab']):
@@ -213,7 +220,7 @@ def run_family(R, i, n, tier, only=None):
             continue
         if only is not None and k != only[0]:
             continue
-        nontrivial = (c['H'] in (None, 0.0, 1.5e-5, 2.5e4) or c['S'] in (None, 0.0) or
+        nontrivial = (c['H'] in (None, 0.0, 1.5e-5, 2.5e4, 5e-05, -1e+16) or c['S'] in (None, 0.0) or
                       0.0 in c['tab'].values() or not c['tab'])
         label = 'H=%r S=%r Cp=%r range=%r T_ref=%r' % (
             c['H'], c['S'], sorted(c['tab'].items())[:3], c['rng'], c['tref'])
